@@ -590,6 +590,9 @@ func run(r *lib.Run) {
 		for i := 0; i < r.Pick(6, 60); i++ {
 			refusedTwin(r, base, i)
 		}
+		for i := 0; i < r.Pick(3, 20); i++ {
+			apiPath(r, base, i)
+		}
 	}
 	r.Sample(map[string]any{"class": "history", "example": newHistSample(r, base)})
 	if r.Counter("gets_hit") == 0 || r.Counter("reopens") == 0 {
